@@ -71,7 +71,7 @@ def force_emitted_memory_modes(frag):
 class CdcHarness(Harness):
     """Common part: tagged synchronisers, sampling faults, cover counters."""
     clocks = ("a", "b")
-    conf_every = 23
+    conf_every = 211
     conf_first = 300
 
     def __init__(self, name, factory, mem="sim", fault=True):
@@ -226,12 +226,12 @@ class CdcStreamHarness(CdcHarness):
          "producer offers, consumer drains and both clocks tick for ever, the offered element is never accepted"),
     )
 
-    def __init__(self, name, factory, capacity, mem="sim", fault=True, idle_garbage=True, cap=None,
+    def __init__(self, name, factory, capacity, mem="sim", fault=True, idle_patterns=(1,), cap=None,
                  sink="sink", source="source"):
         CdcHarness.__init__(self, name, factory, mem, fault)
         self.capacity = capacity
         self.M = 2*capacity + 2
-        self.idle_garbage = idle_garbage
+        self.idle_patterns = tuple(idle_patterns)     # 1: all lines high while valid = 0 (never equals a token), 0: all low
         self.sink_name, self.source_name = sink, source
         if cap:
             self.cap = cap
@@ -256,10 +256,10 @@ class CdcStreamHarness(CdcHarness):
         return (self.alphabet[nid], nid & 1, (nid >> 1) & 1, par_raw(nid & 1, self.sink.parbits))
 
     def env_init(self):
-        return (0, 0, 0, self.model.init())
+        return (0, self.idle_patterns[0], 0, self.model.init())
 
     def choices(self, env):
-        npds = (0, 1, 2) if self.idle_garbage else (0, 2)
+        npds = self.idle_patterns + (2,)
         out = []
         for t, ts in enumerate(TICKSETS):
             for npd in (npds if "a" in ts else (None,)):
@@ -321,6 +321,114 @@ class CdcStreamHarness(CdcHarness):
             return f"occupancy never above {self.maxq}"
         if not self.n_simul:
             return "no simultaneous-edge step"
+        if self.fault and not self.n_cross:
+            return "no crossing signal ever changed in a sampling instant"
+        return None
+
+
+# ---------------------------------------------------------------------------------------------------------------
+# BusSynchronizer
+# ---------------------------------------------------------------------------------------------------------------
+def code_words(width):
+    """even-parity words: two different code words differ in >= 2 bits and every proper per-bit mixture of two code words that
+    differ in exactly 2 bits has odd parity; for width 2 ({00, 11}) and width 3 ({000, 011, 101, 110}) every pair differs in
+    exactly 2 bits, so every torn word is a non-code word."""
+    return tuple(x for x in range(1 << width) if bin(x).count("1") % 2 == 0) if width > 1 else (0, 1)
+
+
+class BusSyncHarness(CdcHarness):
+    """env = (ci, drift, o_prev, hist): value the a-domain register driving `i` holds; edges of one clock since the other ticked
+    (+: a, -: b); last value seen at `o`; bit set of the values `i` has held since `o` last changed.
+    choice = (tick set, next value of i (taken at an a tick))."""
+    conf_every = 7
+    live_queries = (
+        ("live.bus_stuck", STABLE | MISMATCH, 0, (TICK_A, TICK_B),
+         "input held constant, both clocks keep ticking (drift <= R), output never becomes equal to the input"),
+    )
+
+    def __init__(self, name, width, R, T, fault=True, cap=None):
+        from litex.gen.genlib.cdc import BusSynchronizer
+        CdcHarness.__init__(self, name, lambda: BusSynchronizer(width, "a", "b", timeout=T), "sim", fault)
+        self.width, self.R, self.T = width, R, T
+        self.codes = code_words(width)
+        if width in (2, 3):
+            for x in self.codes:
+                for y in self.codes:
+                    assert x == y or bin(x ^ y).count("1") == 2
+        if cap:
+            self.cap = cap
+        self.o_changes = 0
+        self.o_seen = set()
+
+    def bind(self, D):
+        self.bind_cdc(D)
+        self.I, self.O = D.i(self.dut.i), D.i(self.dut.o)
+
+    def env_init(self):
+        return (0, 0, 0, 1)
+
+    def choices(self, env):
+        ci, drift, op, hist = env
+        out = []
+        for t, ts in enumerate(TICKSETS):
+            nd = self.drift(drift, t)
+            if abs(nd) > self.R:
+                continue
+            for ni in (self.codes if "a" in ts else (None,)):
+                out.append((t, ni))
+        return out
+
+    @staticmethod
+    def drift(drift, t):
+        if t == 0:
+            return max(drift, 0) + 1
+        if t == 1:
+            return min(drift, 0) - 1
+        return 0
+
+    def drive(self, v, env, ch):
+        v[self.I] = env[0]
+
+    def next_inputs(self, env, ch):
+        t, ni = ch
+        if ni is not None and ni != env[0]:
+            return {self.I: ni}
+        return None
+
+    def observe(self, v, env, ch):
+        ci, drift, op, hist = env
+        t, ni = ch
+        flags = TICKFLAGS[t]
+        if ni is None or ni == ci:
+            flags |= STABLE
+        if v[self.O] != ci:
+            flags |= MISMATCH
+        # 5th element: value present at the input during this step (consumed by post)
+        return (ci if ni is None else ni, self.drift(drift, t), op, hist | (1 << ci), ci), None, flags
+
+    def post(self, v, env2, ch):
+        ci2, nd, op, hist, ci = env2
+        o = v[self.O]
+        if o not in self.codes:
+            return env2[:4], ("bus.torn", f"o = {o:0{self.width}b} is not a word that was ever present at i (code words "
+                                          f"{[format(c, '0%db' % self.width) for c in self.codes]}): torn word")
+        if o != op:
+            if not (hist >> o) & 1:
+                return env2[:4], ("bus.stale", f"o changed {op:0{self.width}b} -> {o:0{self.width}b} although i has not held that "
+                                               f"value since o last changed")
+            self.o_changes += 1
+            self.o_seen.add(o)
+            return (ci2, nd, o, 1 << ci), None
+        return env2[:4], None
+
+    def cover_report(self):
+        d = self.cdc_cover()
+        d.update(o_changes=self.o_changes, o_values_seen=sorted(self.o_seen), R=self.R, timeout=self.T, code_words=list(self.codes))
+        return d
+
+    def vacuity(self):
+        if len(self.o_seen) < len(self.codes):
+            return f"o only showed {sorted(self.o_seen)}"
         if self.fault and not self.n_cross:
             return "no crossing signal ever changed in a sampling instant"
         return None
